@@ -275,7 +275,7 @@ def run_faulted(u, setup, call, k, persistent, err=errno.EIO, pids=PIDS, fmts=FM
             t.join(10.0)
         r = box[0] if box else "HANG"          # the call did not return within 10 s: the thread is abandoned
         res = {"outcome": r, "state": im.state(), "locks": {a: b for a, b in fsmon.locked_lists(im.hs, mode).items() if b},
-               "sites": plan.count, "fired": plan.fired}
+               "sites": plan.count, "fired": plan.fired, "site_list": list(plan.sites)}
         if keep:
             res["im"] = im
             ok = True
